@@ -586,3 +586,113 @@ Proof.
     - intros i. unfold mem, get_seg. cbn. destruct (Z.to_nat i) as [|[|n]]; cbn; unfold maxSegmentSize; lia. }
   vm_compute. reflexivity.
 Qed.
+
+(* ------------------------------------------------------------------ fuel *)
+(* Builder.v reports fuel exhaustion as [Err]; it is excluded by stability: from the fuel
+   computed below on, more fuel does not change the result, so no [Err] is a fuel artefact.
+   writePtr -> copyStruct -> writePtr costs two units per pointer level:
+   a valid pointer with depth budget d needs 2d + 3, copy_struct from a struct with budget d
+   needs 2d + 2 (for a pointer obtained under depth limit D: 2D + 1). *)
+Definition wneed (q : Ptr) : Z := if p_valid q then 2 * p_depth q + 3 else 1.
+Definition cneed (s : Ptr) : Z := if p_valid s then 2 * p_depth s + 2 else 1.
+Definition depth_nonneg (p : Ptr) : Prop := p_valid p = true -> 0 <= p_depth p.
+
+Lemma fold_res_ext {A} (f g : A -> Z -> res A) : forall l a,
+  (forall x b, In x l -> f b x = g b x) -> fold_res l a f = fold_res l a g.
+Proof.
+  induction l as [|x l IH]; intros a H; cbn [fold_res]; [reflexivity|].
+  rewrite (H x a (or_introl eq_refl)). destruct (g a x); cbn [bind]; try reflexivity.
+  apply IH. intros y b Hy. apply H. right. assumption.
+Qed.
+
+Definition S_wp (f : nat) : Prop := forall strict w dsid off l src fc,
+  depth_nonneg src -> wneed src <= Z.of_nat f ->
+  write_ptr f strict w dsid off l src fc = write_ptr (S f) strict w dsid off l src fc.
+Definition S_cs (f : nat) : Prop := forall strict w dst l src,
+  depth_nonneg src -> cneed src <= Z.of_nat f ->
+  copy_struct f strict w dst l src = copy_struct (S f) strict w dst l src.
+
+Lemma list_struct_true_depth p i e : depth_nonneg p -> list_struct true p i = Ok e ->
+  depth_nonneg e /\ (p_valid e = true -> p_valid p = true /\ p_depth e <= p_depth p).
+Proof.
+  intros Hp H. split.
+  - intros V. assert (p_valid p = true) as Vp.
+    { unfold list_struct in H. destruct (p_valid p); [reflexivity|discriminate]. }
+    destruct (list_struct_depth p i e (Hp Vp) H V) as (_ & X). lia.
+  - intros V. assert (p_valid p = true) as Vp.
+    { unfold list_struct in H. destruct (p_valid p); [reflexivity|discriminate]. }
+    destruct (list_struct_depth p i e (Hp Vp) H V) as (_ & X). split; [assumption|lia].
+Qed.
+
+Lemma wp_stable_step f : S_cs f -> S_wp (S f).
+Proof.
+  intros IH strict w dsid off l src fc Hd Hn. unfold wneed in Hn.
+  cbn [write_ptr]. destruct (p_valid src) eqn:V; cbn [negb]; [|reflexivity]. specialize (Hd V).
+  destruct (p_kind src) eqn:K; [| |reflexivity].
+  - destruct (os_isZero (p_size src)); [reflexivity|].
+    destruct (fc || is_src l || p_member src); [|reflexivity].
+    destruct (alloc _ _ _) as [[[m1 nsid] naddr]| |]; cbn [bind]; try reflexivity.
+    rewrite (IH strict); [reflexivity|intros _; assumption|]. unfold cneed. rewrite V. lia.
+  - destruct (fc || is_src l); [|reflexivity].
+    destruct (alloc _ _ _) as [[[m1 nsid] naddr]| |]; cbn [bind]; try reflexivity.
+    match goal with |- bind (bind ?X ?K1) ?K0 = bind (bind ?X ?K2) ?K0 =>
+      destruct X as [[[w2 doff] sz']| |]; cbn [bind]; try reflexivity end.
+    destruct (p_bit src || (PointerCount (p_size src) =? 0)); [reflexivity|].
+    match goal with |- bind (bind (fold_res ?l ?a ?F) _) _ = bind (bind (fold_res ?l ?a ?G) _) _ =>
+      rewrite (fold_res_ext F G l a); [reflexivity|] end.
+    intros i wa _. destruct (list_struct true _ i) as [de| |]; cbn [bind]; try reflexivity.
+    destruct (list_struct true src i) as [se| |] eqn:Ese; cbn [bind]; try reflexivity.
+    destruct (list_struct_true_depth src i se (fun _ => Hd) Ese) as [Hse1 Hse2].
+    apply IH; [exact Hse1|]. unfold cneed. destruct (p_valid se) eqn:Vse; [|lia].
+    destruct (Hse2 eq_refl) as [_ Hle]. lia.
+Qed.
+
+Lemma cs_stable_step f : S_wp f -> S_cs (S f).
+Proof.
+  intros IH strict w dst l src Hd Hn. unfold cneed in Hn.
+  cbn [copy_struct]. destruct (negb (p_valid dst)); [reflexivity|].
+  destruct (p_valid src) eqn:V; cbn [negb]; [|reflexivity]. specialize (Hd V).
+  destruct (slice _ _ _); cbn [bind]; try reflexivity.
+  destruct (slice _ _ _); cbn [bind]; try reflexivity.
+  destruct (lift0 _ _) as [w1| |]; cbn [bind]; try reflexivity.
+  match goal with |- bind (fold_res ?l ?a ?F) _ = bind (fold_res ?l ?a ?G) _ =>
+    rewrite (fold_res_ext F G l a); [reflexivity|] end.
+  intros j wa _.
+  destruct (readPtr strict (w_segs wa l) (w_rl wa l) (p_seg src) _ (pointerAddress src j) (p_depth src))
+    as [r rl'] eqn:Er.
+  destruct r as [q| |]; cbn [bind]; try reflexivity.
+  pose proof (readPtr_depth strict (w_segs wa l) (w_rl wa l) (p_seg src)
+                (nth (Z.to_nat (p_seg src)) (w_segs wa l) []) (pointerAddress src j) (p_depth src) q Hd) as Hq.
+  rewrite Er in Hq. specialize (Hq eq_refl).
+  apply IH.
+  - intros Vq. specialize (Hq Vq). lia.
+  - unfold wneed. destruct (p_valid q) eqn:Vq; [|lia]. specialize (Hq eq_refl). lia.
+Qed.
+
+Theorem copy_fuel_stable : forall f, S_wp f /\ S_cs f.
+Proof.
+  induction f as [|f [IHw IHc]].
+  - split.
+    + intros strict w dsid off l src fc Hd Hn. unfold wneed, depth_nonneg in *. destruct (p_valid src); [specialize (Hd eq_refl)|]; lia.
+    + intros strict w dst l src Hd Hn. unfold cneed, depth_nonneg in *. destruct (p_valid src); [specialize (Hd eq_refl)|]; lia.
+  - split; [apply wp_stable_step; assumption|apply cs_stable_step; assumption].
+Qed.
+
+(* copy_safe, fuel part: with fuel >= 2 * depth budget + 3 the result does not depend on the
+   fuel, so "out of fuel" does not occur *)
+Theorem write_ptr_fuel_enough f k strict w dsid off l src fc :
+  depth_nonneg src -> wneed src <= Z.of_nat f ->
+  write_ptr (f + k) strict w dsid off l src fc = write_ptr f strict w dsid off l src fc.
+Proof.
+  intros Hd Hn. induction k as [|k IH]; [rewrite Nat.add_0_r; reflexivity|].
+  rewrite Nat.add_succ_r. destruct (copy_fuel_stable (f + k)) as [H _].
+  rewrite <- H; [exact IH|exact Hd|lia].
+Qed.
+Theorem copy_struct_fuel_enough f k strict w dst l src :
+  depth_nonneg src -> cneed src <= Z.of_nat f ->
+  copy_struct (f + k) strict w dst l src = copy_struct f strict w dst l src.
+Proof.
+  intros Hd Hn. induction k as [|k IH]; [rewrite Nat.add_0_r; reflexivity|].
+  rewrite Nat.add_succ_r. destruct (copy_fuel_stable (f + k)) as [_ H].
+  rewrite <- H; [exact IH|exact Hd|lia].
+Qed.
